@@ -80,6 +80,16 @@ func c14gen(r *rand.Rand) *c14case {
 	for k := 3 + r.IntN(8); k > 0; k-- {
 		add(n+"."+c14ts(r), "own", false)
 	}
+	// own files whose NAME carries a recent (or even future) local time although the file is old, and
+	// the other way round: the modification time decides, not the name
+	for k := 1 + r.IntN(3); k > 0; k-- {
+		off := r.IntN(70) - 24 // hours; never within two hours of now: that would be the name of the appender's current file
+		if off >= -1 {
+			off += 3
+		}
+		t := time.Now().Add(time.Duration(off) * time.Hour)
+		add(n+"."+t.Format("20060102150405"), "own-recent-name", false)
+	}
 	for k := 2 + r.IntN(4); k > 0; k-- {
 		add(n+".wf."+c14ts(r), "sibling-wf", false)
 	}
@@ -349,14 +359,18 @@ func init() {
 	register(&Prop{
 		ID: "C14", Level: "exploration", MinDistinct: 20, Worker: c14Worker,
 		Rule: "directory states generated per case: 3-10 own rotated files '<name>.<14 digits>', 2-5 sibling '<name>.wf.<ts>' files, 4-11 foreign prefix-sharing or unrelated files from 17 shapes (name.audit.<ts>, name.bak, name.1.gz, 13/15-digit suffixes, name.<ts>.gz, 'name.', 'name', namex.<ts>, upper-case, letters/sign inside the digits, ...), sub-directories incl. one named exactly like an own file; " +
-			"modification times set to T0-age with ages 0, maxAge∓11 min, ∓1 h, far expired, uniformly young; names in {app.log, svc, a.b.c, x-1_y}; maxAge over 1..720 h with emphasis on 1-3 and 590-720; optionally a sibling '<name>.wf' appender cleaning the same directory. The appender is started (current file exists) and the scan runs through the guarded synchronous entry; a second worker kind lets a real 1 s rotation trigger the asynchronous scan and polls the directory. " +
+			"modification times set to T0-age with ages 0, maxAge∓11 min, ∓1 h, far expired, uniformly young; names in {app.log, svc, a.b.c, x-1_y}; 1-3 own files whose name carries a recent or future local time while the file itself is old (and vice versa); workers run in six time zones (TZ); maxAge over 1..720 h with emphasis on 1-3 and 590-720; optionally a sibling '<name>.wf' appender cleaning the same directory. The appender is started (current file exists) and the scan runs through the guarded synchronous entry; a second worker kind lets a real 1 s rotation trigger the asynchronous scan and polls the directory. " +
 			"Oracle: survivors = everything except regular files matching ^<name>\\.\\d{14}$ older than maxAge hours (no file lies within 10 min of the cut-off). Non-trivial/distinct = distinct (trigger, name, maxAge band, sibling, something deleted) classes that matched.",
 		Assumptions: []string{"files within 10 minutes of the cut-off are never generated; a case taking longer than that is inconclusive", "modification times are set with os.Chtimes"},
 		Run: func(d *D) {
 			var specs []Spec
+			zones := []string{"", "Asia/Tokyo", "America/Los_Angeles", "Pacific/Kiritimati", "UTC", "Asia/Kolkata"}
 			for i := 0; i < 12; i++ {
 				s := d.NewSpec("sync", fmt.Sprintf("sync-%d", i), i, 16)
 				s.N = d.Pick(400, 4000)
+				if z := zones[i%len(zones)]; z != "" {
+					s.Env = []string{"TZ=" + z} // rotated file names are written in local time
+				}
 				specs = append(specs, s)
 			}
 			for i := 0; i < 4; i++ {
